@@ -29,6 +29,7 @@ func runC05(r *Run) {
 	r.Rule("R1", "TYPE/PATH.revertible-context: some JournalEntry implementation's Revert must restore SDK-side state (assign StateDB.ctx / restore a store snapshot), and every wired stateful precompile with Cosmos-side effects must append such an entry before dispatching a transaction handler")
 	r.Rule("R2", "PATH.tx-cache: in ApplyTransaction the message and PostTxProcessing run on the context returned by ctx.CacheContext(); its write function is called only on edges where res.Failed() is false and the hook error is nil, and on every such path (unless it is nil)")
 	r.Rule("R3", "TABLE.hooks-installed: NewHaqq calls SetHooks(NewMultiEvmHooks(h1, …)) with at least one hook")
+	r.Rule("R6", "PATH.out-of-gas-is-a-failure: every wired stateful precompile's Run defers the closure returned by HandleGasError with the address of Run's own named error result — the variable the function's recover path returns — so an SDK out-of-gas panic inside the precompile surfaces as vm.ErrOutOfGas and the frame's writes are handled as a failed frame (with an unnamed result the recovered panic turns into a successful call with empty output whose Cosmos-side effects stay)")
 	r.Rule("R4", "PATH.journal-discipline: in x/evm/statedb every write to revertible state (stateObject.account/code/dirtyCode/dirtyStorage/suicided, StateDB.stateObjects/logs/refund/accessList) happens in a constructor, in a JournalEntry.Revert, after a journal.append in the same function, or in a raw setter all of whose callers satisfy the same; each entry's Revert reads its own recorded fields")
 
 	// ---------- R1 ----------
@@ -300,6 +301,7 @@ func runC05(r *Run) {
 
 	// ---------- R4 ----------
 	journalDiscipline(r, entries)
+	oogIsFailure(r)
 
 	// ---------- R5 ----------
 	r.Rule("R5", "PATH.flush-skip: StateDB.Commit runs in the middle of a transaction (before every precompile dispatch), so 'nothing to write' for a dirty slot is judged against what an earlier flush of this transaction wrote (transientStorage) whenever such a value exists, and against the originally loaded value only when it does not: the comparison with originStorage is reachable only over the not-found edge of the transientStorage lookup, and each SetState is followed by recording the value in transientStorage — otherwise a slot flushed inside a frame that later reverts keeps the reverted value in the store")
@@ -448,6 +450,56 @@ func revertibleWrite(in ssa.Instruction) (string, bool) {
 		}
 	}
 	return "", false
+}
+
+// oogIsFailure (C05 R6).
+func oogIsFailure(r *Run) {
+	P := r.P
+	n := 0
+	for _, m := range wiredPrecompiles(r) {
+		if !m.Stateful || m.Run == nil {
+			continue
+		}
+		run := m.Run
+		n++
+		inst := fnID(run) + "#gas-error-reaches-named-result"
+		var ptr ssa.Value
+		deferred := false
+		eachInstr(run, func(in ssa.Instruction) {
+			c, ok := in.(*ssa.Call)
+			if ok && callInfo(c).Name == "HandleGasError" {
+				a := c.Call.Args
+				ptr = a[len(a)-1]
+				// the returned closure is deferred
+				if c.Referrers() != nil {
+					for _, ref := range *c.Referrers() {
+						if d, ok := ref.(*ssa.Defer); ok && d.Call.Value == ssa.Value(c) {
+							deferred = true
+						}
+					}
+				}
+			}
+		})
+		if ptr == nil || !deferred {
+			r.Bad("R6", inst, P.Pos(fnPos(run)), "Run does not defer HandleGasError: an SDK out-of-gas panic inside the precompile is not turned into a failed frame")
+			continue
+		}
+		// the recover block returns the named results: its error operand must be a load of the same variable
+		okNamed := false
+		if run.Recover != nil {
+			for _, in := range run.Recover.Instrs {
+				if ret, ok := in.(*ssa.Return); ok && len(ret.Results) > 0 {
+					last := ret.Results[len(ret.Results)-1]
+					if u, ok := last.(*ssa.UnOp); ok && u.Op == token.MUL && u.X == stripValue(ptr) {
+						okNamed = true
+					}
+				}
+			}
+		}
+		r.Check(okNamed, "R6", inst, P.Pos(fnPos(run)), "HandleGasError writes Run's named error result, which the recover path returns",
+			"the pointer handed to HandleGasError is not Run's named error result: after a recovered out-of-gas panic Run returns (nil, nil) — the EVM sees a successful call, charges no gas for it, and whatever the handler had already written on the Cosmos side (escrow, packet, delegation) persists")
+	}
+	r.Floor("R6", "stateful precompile Run methods", n, 4)
 }
 
 func journalDiscipline(r *Run, entries []*types.Named) {
@@ -637,6 +689,42 @@ func journalDiscipline(r *Run, entries []*types.Named) {
 		})
 	}
 	r.Count("R4 delete() calls in x/evm/statedb", nDel)
+	// balances are values: no in-place big.Int arithmetic on a number that revertible state points to. Journal entries
+	// and replaced objects (resetObjectChange.prev) keep pointers to the same big.Int, so x.Add(x, y) on a stored
+	// balance silently edits what a Revert is going to restore.
+	{
+		nMut := 0
+		mutators := map[string]bool{"Add": true, "Sub": true, "Mul": true, "Quo": true, "Div": true, "Mod": true, "Neg": true, "Set": true, "SetUint64": true, "SetInt64": true, "SetBytes": true, "SetString": true, "Lsh": true, "Rsh": true, "Exp": true, "Abs": true, "And": true, "Or": true, "Xor": true, "Not": true}
+		for _, fn := range fns {
+			eachCall(fn, func(ci CallInfo) {
+				if ci.PkgPath != "math/big" || ci.Recv != "Int" || !mutators[ci.Name] {
+					return
+				}
+				recv := callArgs(ci.Instr)[0]
+				// receiver loaded from a field of revertible state (stateObject.account.Balance, …)
+				stored := false
+				if u, ok := stripValue(recv).(*ssa.UnOp); ok && u.Op == token.MUL {
+					for a := u.X; a != nil; {
+						if sn, f, ok := fieldOfAddr(a); ok && ((sn == "stateObject" && revertibleObjFields[f]) || sn == "Account") {
+							stored = true
+						}
+						if fa, ok := a.(*ssa.FieldAddr); ok {
+							a = fa.X
+						} else {
+							a = nil
+						}
+					}
+				}
+				if stored {
+					nMut++
+					r.Bad("R4", fmt.Sprintf("%s#in-place-%s-on-stored-number", fnID(fn), ci.Name), P.Pos(instrPos(ci.Instr)), "big.Int."+ci.Name+" is applied in place to a number that revertible state points to: journal entries and replaced objects share that pointer, so the value a Revert restores (or a saved previous object holds) changes with it")
+				}
+			})
+		}
+		if nMut == 0 {
+			r.OK("R4", "x/evm/statedb#no-in-place-arithmetic-on-stored-numbers", "", "no mutating big.Int method has a receiver loaded from revertible state")
+		}
+	}
 	// entry-covers-writes: what a function writes after journal.append(E{…}) must be what E.Revert restores
 	{
 		fine := func(in ssa.Instruction) (string, bool) {
